@@ -2,7 +2,7 @@
 CPython (JSON stdin -> JSON stdout): the head (imports, helper defs) and the setup lines once, then the
 lines of the `while True:` body N times in the same module namespace.  After each phase it reports what
 mon.write printed and the amount of live list data (total length of the distinct list objects bound to a
-module-level name).  An exception ends the run; its class name is reported for that phase.
+module-level name; `named`: the same counted once per name).  An exception ends the run; its class name is reported for that phase.
 
 The firmware half (real parse()+emit(), clang++ -fsanitize=address,undefined, mock core with the
 allocation counter) is driven by harness/props/c09.py through harness/fw.py."""
@@ -43,6 +43,11 @@ def live_data(ns):
     return total
 
 
+def named_data(ns):
+    """live list data counted per NAME: a list object bound to two module-level names counts twice"""
+    return sum(len(v) for k, v in ns.items() if not k.startswith("__") and isinstance(v, list))
+
+
 def norm(v):
     if isinstance(v, bool):
         return int(v)
@@ -72,7 +77,7 @@ def run_job(job):
         except BaseException as e:  # noqa
             phases.append({"exc": type(e).__name__, "out": [norm(x) for x in mon.out]})
             break
-        phases.append({"out": [norm(x) for x in mon.out], "live": live_data(ns)})
+        phases.append({"out": [norm(x) for x in mon.out], "live": live_data(ns), "named": named_data(ns)})
     return {"phases": phases}
 
 
